@@ -424,7 +424,8 @@ def gen_session(rnd, idx, tmpdir):
         helper = ('class Tee:\n    def __init__(self, out):\n        self.out = out\n        self.n = 0\n\n'
                   '    def write(self, s):\n        self.n += 1\n        return self.out.write(s)\n\n'
                   '    def flush(self):\n        self.out.flush()\n\n\ndef make(out):\n    return Tee(out)\n')
-        L += ['    import helper_tee', '    sys.stdout = helper_tee.make(sys.stdout)', "    print('through the tee')"]
+        L[L.index('import sys')] = 'import sys\nfrom helper_tee import Tee, make'
+        L += ['    sys.stdout = make(sys.stdout)', "    print('through the tee')"]
     if gen_exec:
         L.append('    gen(%d)' % rnd.randint(1, 5))
     if self_import:
